@@ -223,6 +223,12 @@ def c16(seed, n, pool=None, processes=3):
             for where in ('struct S<T> { #[educe(%s)] a: T }', 'enum E<T> { #[educe(%s)] A(T) }', 'enum E<T> { A(#[educe(%s)] T) }'):
                 for bad in ('%s = 1', '%s(foo)', '%s(bound(*))', '%s(ignore, ignore)'):
                     cases.append(('c16g-%d' % gk, _Txt('#[educe(%s)]\n%s' % (ok, where % (bad % t))))); gk += 1
+    # unions: refused and accepted forms of the byte-wise traits (their diagnostics are built by separate helpers)
+    for a in ('Debug', 'Debug()', 'Debug(name = A)', 'Debug(unsafe)', 'Debug(unsafe, name = A)', 'PartialEq', 'PartialEq(unsafe)', 'Hash', 'Hash()', 'Hash(unsafe)',
+              'Debug, PartialEq, Hash', 'Clone', 'Default', 'Ord', 'Deref', 'Into(u8)'):
+        for body in ('union U { a: u8, b: u16 }', 'union U { #[educe(Default)] a: u8, b: u16 }', 'union U { a: u8 }'):
+            for rep in range(2):
+                cases.append(('c16g-%d' % gk, _Txt('#[educe(%s)]\n%s' % (a, body)))); gk += 1
     # several invalid constructs at once: which one the diagnostic names must not vary either
     for a in ('Debug, Clone, Hash)]\n#[educe(Hash, Debug, Clone', 'Debug, Debug, Clone, Clone', 'PartialEq, Eq, Eq, PartialEq, Hash, Hash',
               'Foo, Bar, Debug', 'Debug(foo, bar), Clone(baz)', 'Into(u8), Into(u8), Debug, Debug'):
